@@ -17,23 +17,26 @@ and `conversion/mod.rs` is a value `Outcome.panic site`, every loop takes fuel a
   `candidates_per_page > 0`, and for an open candidate list: the phrase selector's range is a non-empty run
   of syllables inside the buffer and its composition is the editor's; a replacing symbol list sits on a
   non-syllable symbol.
-* `C01_partial` — one operation: from a state satisfying `EditorInv`, an operation that is not in the
-  known class (`Known`: F02 / F03, state based) and is `Covered` returns a value (no panic, fuel not
-  exhausted) and `EditorInv` holds again.  `C01_partial_run` lifts it to every operation list.
+* `C01_partial` — one operation: from a state satisfying `EditorInv`, EVERY public operation that is not in
+  the known class (`Known`: F02 / F03, state based) returns a value (no panic, fuel not exhausted) and
+  `EditorInv` holds again (`C01_target_holds`: the former coverage restriction `Covered` is gone).  `C01_partial_run` lifts it to every operation list.
   `no_panic`, `no_hang` restate the conclusion in the words of the property.
 * `C01_full` — the statement without the `Known` exclusion — is **refuted** (`C01_full_refuted`) by the
   F02 history (type a partial syllable under the fuzzy engine, switch to the standard engine, Enter) and
   the F03 history (`f03_history_panics`: type a syllable, remove its only word, Enter) in a small
   environment satisfying `EnvOK`.
 * `C01_plain_histories` — histories made of key events (any code / modifiers), `select(n)`, start / cancel
-  selecting, `commit`, `clear`, `ack`, layout switches and `learn_phrase` need NO exclusion: they never panic or hang.
-* `f41_history_repaired` — finding F41 (found by this proof attempt in the one corner `Covered` excludes,
+  selecting, the four `jump_to_*_selection_point` calls, `commit`, `clear`, `ack`, layout switches and
+  `learn_phrase` need NO exclusion: they never panic or hang.
+* `selector_loops_terminate`, `init_terminates`, `jump_never_panics` — fuel sufficiency of every selector loop,
+  with the reason each makes progress.
+* `f41_history_repaired` — finding F41 (found by the first proof attempt in the corner `Covered` used to exclude,
   confirmed as an abort on the real C API, repaired by a `fix:` commit): with the simple engine,
   `jump_to_first_selection_point` made the single-word list swallow the following non-syllable symbol; choosing a
   candidate recorded an invalid selection and the next `ChewingEngine` conversion aborted.
 * `initial_inv` — a fresh editor satisfies `EditorInv`.
 
-## Coverage (`Covered`) — level: partial
+## Coverage
 
 Covered: every key event (all key codes / modifiers / options) in ALL four states — `Entering`,
 `EnteringSyllable`, `Highlighting`, and `Selecting` with a phrase list, a special-symbol list or a symbol
@@ -43,12 +46,15 @@ composition invariant survives; `SymbolSelector::{menu,select}` index only exist
 keys that open a candidate list (`PhraseSelector::init` terminates), auto-commit and the dictionary flush;
 and every other entry point in every state: `select(n)`, `start_selecting`, `cancel_selecting`, `commit`,
 `clear`, `ack`, `clear_syllable_editor`, `set_editor_options`, `set_syllable_editor`,
-`set_conversion_engine`, `learn_phrase`, `unlearn_phrase`, and `jump_*` outside a phrase list.
-**Not yet covered by a theorem** (`C01_target` is the statement without `Covered`):
-`jump_to_{first,last,next,prev}_selection_point` while a *phrase* candidate list is open
-(`chewing_cand_list_{first,last,next,prev}`); they need an invariant relating the selector's range to the
-position it was opened at.  The first proof attempt there uncovered finding F41 (repaired, see below).  Covered by the correspondence (model = code per step, including which
-steps panic) and the crash campaigns only.  Likewise outside the theorems: the C glue `capi/src/io.rs`.
+`set_conversion_engine`, `learn_phrase`, `unlearn_phrase` (the last four end with `revalidate_selecting`, the
+F32 repair of C07: `total_page()` answers under the invariant), and
+`jump_to_{first,last,next,prev}_selection_point` in every state — also while a *phrase* candidate list is open
+(`chewing_cand_list_{first,last,next,prev}`; `Proofs/C01Jump.lean`): the invariant of an open phrase selector
+carries the `Anchor` of its range (the position `orig` the list was opened at: the range starts there when
+choosing forward, ends right after it when choosing rearward — what finding F41 violated), so re-`init` from
+`orig` and the searches of `prev_selection_point` up to the break points around `orig` stay on the run of
+syllables.  Outside the theorems: the C glue `capi/src/io.rs` (correspondence of the Rust API per step and the
+C-API crash campaign).
 The symbol tables enter through the hypothesis `SymWF` (well-formed `symbols.dat` as loaded: leaf
 categories have a name, table categories point to an existing table), part of `EditorInv`.
 
@@ -62,27 +68,28 @@ open Chewing Chewing.C04 Chewing.C05 Chewing.C06
 
 variable {D L : Type} {env : Env D L} {G : D → Prop}
 
-/-- **C01, one operation (partial).**  `hv`: arguments the C layer validates; `hk`: not the known class
-    F02/F03; `hc`: not `jump_to_*_selection_point` on an open phrase list. -/
+/-- **C01, one operation (partial: the known class F02/F03 is excluded, nothing else).**  `hv`: arguments
+    the C layer validates; `hk`: not the known class F02/F03.  Every public operation of the editor is
+    covered, also `jump_to_*_selection_point` on an open phrase list (the former `Covered` restriction is gone). -/
 theorem C01_partial (hE : EnvOK env G) (e : Editor D L) (op : Op L) (hi : EditorInv env G e) (hv : OpValid op)
-    (hk : ¬ Known env e op) (hc : Covered e op) :
+    (hk : ¬ Known env e op) :
     ∃ e', e.apply env op = .ok e' ∧ EditorInv env G e' :=
-  apply_ok hE hi op hv hk hc
+  apply_ok hE hi op hv hk
 
 /-- … in the words of the property: the call does not panic … -/
 theorem no_panic (hE : EnvOK env G) (e : Editor D L) (op : Op L) (hi : EditorInv env G e) (hv : OpValid op)
-    (hk : ¬ Known env e op) (hc : Covered e op) (site : String) : e.apply env op ≠ .panic site :=
-  (apply_ok hE hi op hv hk hc).not_panic.1 site
+    (hk : ¬ Known env e op) (site : String) : e.apply env op ≠ .panic site :=
+  (apply_ok hE hi op hv hk).not_panic.1 site
 
 /-- … and every loop finishes within the fuel the model supplies (linear in the buffer length) -/
 theorem no_hang (hE : EnvOK env G) (e : Editor D L) (op : Op L) (hi : EditorInv env G e) (hv : OpValid op)
-    (hk : ¬ Known env e op) (hc : Covered e op) : e.apply env op ≠ .outOfFuel :=
-  (apply_ok hE hi op hv hk hc).not_panic.2
+    (hk : ¬ Known env e op) : e.apply env op ≠ .outOfFuel :=
+  (apply_ok hE hi op hv hk).not_panic.2
 
-/-- a history all of whose steps are valid, outside the known class and covered (evaluated along the run) -/
+/-- a history all of whose steps are valid and outside the known class (evaluated along the run) -/
 def Allowed (env : Env D L) : Editor D L → List (Op L) → Prop
   | _, [] => True
-  | e, op :: ops => OpValid op ∧ ¬ Known env e op ∧ Covered e op ∧ ∀ e', e.apply env op = .ok e' → Allowed env e' ops
+  | e, op :: ops => OpValid op ∧ ¬ Known env e op ∧ ∀ e', e.apply env op = .ok e' → Allowed env e' ops
 
 /-- **C01, every history (partial).** -/
 theorem C01_partial_run (hE : EnvOK env G) (ops : List (Op L)) :
@@ -91,17 +98,18 @@ theorem C01_partial_run (hE : EnvOK env G) (ops : List (Op L)) :
   | nil => intro e hi _; exact ⟨e, rfl, hi⟩
   | cons op ops ih =>
     intro e hi ha
-    obtain ⟨hv, hk, hc, hrest⟩ := ha
-    obtain ⟨e1, h1, hi1⟩ := apply_ok hE hi op hv hk hc
+    obtain ⟨hv, hk, hrest⟩ := ha
+    obtain ⟨e1, h1, hi1⟩ := apply_ok hE hi op hv hk
     obtain ⟨e2, h2, hi2⟩ := ih e1 hi1 (hrest e1 h1)
     exact ⟨e2, by simp only [Editor.run]; rw [h1]; exact h2, hi2⟩
 
-/-- operations that can never be in the known class and are always covered: key events (any code,
-    any modifiers), `select(n)`, `start_selecting`, `cancel_selecting`, `commit`, `clear` (reset), `ack`,
-    `clear_syllable_editor`, `set_syllable_editor` (keyboard-layout switch at any moment), `learn_phrase` -/
+/-- operations that can never be in the known class: key events (any code, any modifiers), `select(n)`,
+    `start_selecting`, `cancel_selecting`, `commit`, `clear` (reset), `ack`, `clear_syllable_editor`,
+    `set_syllable_editor` (keyboard-layout switch at any moment), `learn_phrase`, and the four
+    `jump_to_*_selection_point` calls -/
 def Plain : Op L → Prop
   | .key _ | .select _ | .startSelecting | .cancelSelecting | .commit | .clear | .ack | .clearSyl
-  | .setLayout _ | .learn _ _ => True
+  | .setLayout _ | .learn _ _ | .jump _ => True
   | _ => False
 
 theorem allowed_of_plain (ops : List (Op L)) : ∀ e : Editor D L, (∀ op ∈ ops, Plain op) → Allowed env e ops := by
@@ -111,9 +119,9 @@ theorem allowed_of_plain (ops : List (Op L)) : ∀ e : Editor D L, (∀ op ∈ o
     intro e h
     have hp := h op (List.mem_cons_self ..)
     have hrest := fun e' (_ : e.apply env op = .ok e') => ih e' (fun o ho => h o (List.mem_cons_of_mem _ ho))
-    cases op <;> first | exact ⟨trivial, fun hk => hk, trivial, hrest⟩ | exact absurd hp (fun hh => hh)
+    cases op <;> first | exact ⟨trivial, fun hk => hk, hrest⟩ | exact absurd hp (fun hh => hh)
 
-/-- **C01 for histories of keys, candidate choices, commits, resets, layout switches and learn calls**:
+/-- **C01 for histories of keys, candidate choices, jumps, commits, resets, layout switches and learn calls**:
     from every state satisfying the invariant NO such history panics or hangs — no exclusion at all -/
 theorem C01_plain_histories (hE : EnvOK env G) (e : Editor D L) (hi : EditorInv env G e) (ops : List (Op L))
     (hp : ∀ op ∈ ops, Plain op) : ∃ e', e.run env ops = .ok e' ∧ EditorInv env G e' :=
@@ -152,10 +160,65 @@ theorem engines_satisfy_convert_ok {pick : Nat → List Conv.Path → Nat} (hp :
     OkAnd (fun paths => paths ≠ [] ∧ ∀ p ∈ paths, PathOK c p) (Conv.convert pick (toEngine k) d c) :=
   convert_ok_of_C03 hp hd hw hf k (compValid_of_cinv hi) hlen hword
 
-/-- the statement the package aims at: `C01_partial` without the `Covered` restriction -/
+/-- the statement the package aimed at while `jump_to_*_selection_point` on an open phrase list was outside
+    the theorems (predicate `Covered`, now deleted): one operation, no restriction but the known class -/
 def C01_target : Prop :=
   ∀ (D L : Type) (env : Env D L) (G : D → Prop), EnvOK env G → ∀ (e : Editor D L) (op : Op L),
     EditorInv env G e → OpValid op → ¬ Known env e op → ∃ e', e.apply env op = .ok e' ∧ EditorInv env G e'
+
+/-- **… reached**: every public operation of the editor, in every state satisfying the invariant -/
+theorem C01_target_holds : C01_target :=
+  fun _ _ _ _ hE e op hi hv hk => apply_ok hE hi op hv hk
+
+/-- **`jump_to_{first,last,next,prev}_selection_point`** (`chewing_cand_list_*`) never panic or hang and keep
+    the invariant, in every state — also on an open phrase list (`Proofs/C01Jump.lean`: the searches stay on
+    the run of syllables around the position the list was opened at; fuel sufficiency: every round of
+    `next_selection_point` shortens the range, every round of `prev_selection_point` moves one symbol
+    towards an end of the buffer, `jump_to_last` shortens the range in every round) -/
+theorem jump_never_panics (e : Editor D L) (hi : EditorInv env G e) (w : Nat) :
+    ∃ e' okk, e.jump env w = .ok (e', okk) ∧ EditorInv env G e' := by
+  obtain ⟨⟨e', b⟩, hq, h1⟩ := jump_api_ok hi w
+  exact ⟨e', b, hq, h1⟩
+
+/-- **the selector loops terminate — fuel sufficiency, with the reason each loop makes progress.**  For a
+    selector whose range is a non-empty run of syllables inside its buffer (`RangeOK`) over a dictionary with a
+    word for every buffered syllable under the selector's strategy (what `Known`, F02/F03, excludes):
+    * `PhraseSelector::next` (Down / Space on the last page) returns within `2·len + 4` rounds: every round
+      shortens the range by one symbol until the one-syllable range at the anchored end, which has a word;
+      it wraps around to the break point at most once (`next_ok`);
+    * `next_selection_point` returns within `len + 2` rounds: every round shortens the range, a one-symbol
+      range ends the search;  `prev_selection_point` likewise: every round moves the free end one symbol
+      towards the end / beginning of the buffer, where the search ends;
+    * `jump_to_last_selection_point` returns within `len + 2` rounds: every round strictly shortens the range.
+    None of the four needs the dictionary hypothesis except `next` (without it `next` may spin forever: the hang
+    of finding F03). -/
+theorem selector_loops_terminate (d : D) (s : PhraseSel) (hr : RangeOK s) :
+    ((∀ c, Sym.syl c ∈ s.com.symbols → env.hasPhrase d [c] s.strategy = true) → ∃ s', PhraseSel.next env s d = .ok s' ∧ RangeOK s') ∧
+    (∃ r, PhraseSel.nextSelectionPoint env s d = .ok r) ∧ (∃ r, PhraseSel.prevSelectionPoint env s d = .ok r) ∧
+    (∃ s', PhraseSel.jumpToLast env s d = .ok s' ∧ RangeOK s') := by
+  refine ⟨fun hw => ?_, ?_, ?_, ?_⟩
+  · obtain ⟨s', hq, hp⟩ := next_ok (env := env) d s hr hw; exact ⟨s', hq, hp.range⟩
+  · obtain ⟨r, hq, _⟩ := nextSelectionPoint_ok (env := env) d s hr; exact ⟨r, hq⟩
+  · obtain ⟨r, hq, _⟩ := prevSelectionPoint_ok (env := env) d s hr; exact ⟨r, hq⟩
+  · obtain ⟨s', hq, hp⟩ := jumpToLast_ok (env := env) d s hr; exact ⟨s', hq, hp.range⟩
+
+/-- **`PhraseSelector::init` terminates** (opening a list, `j` / `k`, `chewing_cand_list_first`) at a syllable
+    inside the buffer, over a dictionary with a word for every buffered syllable: the shrinking loop makes
+    progress by one symbol per round and stops at the latest at the single syllable under the cursor, which has
+    a word; the fuel `len + 2` suffices.  The range returned is a non-empty run of syllables around the cursor. -/
+theorem init_terminates (forward : Bool) (strategy : Strategy) (com : Composition) (cursor : Nat) (d : D)
+    (hlt : cursor < com.symbols.length) (hsyl : ∃ k, com.symbols[cursor]? = some (Sym.syl k))
+    (hw : ∀ c, Sym.syl c ∈ com.symbols → env.hasPhrase d [c] strategy = true) :
+    ∃ p, PhraseSel.init env forward strategy com cursor d = .ok p ∧ p.com = com ∧ RangeOK p ∧ p.orig = cursor ∧
+      p.begin_ ≤ cursor ∧ cursor < p.end_ := by
+  obtain ⟨p, hq, p1, _, p3, p4, p5, p6, p7, p8⟩ := init_ok (env := env) forward strategy com cursor d hlt hsyl hw
+  refine ⟨p, hq, p1, ⟨p3, by rw [p1]; exact p4, by rw [p1]; exact p5⟩, p8, ?_, ?_⟩
+  · cases hf : p.forward with
+    | true => have := p6.fw hf; omega
+    | false => have := p6.rw hf; omega
+  · cases hf : p.forward with
+    | true => have := p6.fw hf; omega
+    | false => have := p6.rw hf; omega
 
 /-- the property as worded, over histories: from a fresh state NO sequence of (valid) public operations
     panics or hangs -/
@@ -313,14 +376,14 @@ theorem ok_unique {α : Type} {r : Outcome α} {a b : α} (h1 : r = .ok a) (h2 :
   Outcome.ok.inj (h1.symm.trans h2)
 
 theorem allowed_cons {e : Editor D L} {op : Op L} {ops : List (Op L)} (h1 : OpValid op) (h2 : ¬ Known env e op)
-    (h3 : Covered e op) (h4 : ∀ e', e.apply env op = .ok e' → Allowed env e' ops) : Allowed env e (op :: ops) :=
-  ⟨h1, h2, h3, h4⟩
+    (h4 : ∀ e', e.apply env op = .ok e' → Allowed env e' ops) : Allowed env e (op :: ops) :=
+  ⟨h1, h2, h4⟩
 
 theorem allowed_two_keys {e : Editor D L} {k1 k2 : KeyEvent} {rest : List (Op L)}
     (hr : ∀ e1 e2, e.apply env (.key k1) = .ok e1 → e1.apply env (.key k2) = .ok e2 → Allowed env e2 rest) :
     Allowed env e (.key k1 :: .key k2 :: rest) :=
-  allowed_cons trivial (fun h => h) trivial fun e1 he1 =>
-    allowed_cons trivial (fun h => h) trivial fun e2 he2 => hr e1 e2 he1 he2
+  allowed_cons trivial (fun h => h) fun e1 he1 =>
+    allowed_cons trivial (fun h => h) fun e2 he2 => hr e1 e2 he1 he2
 
 /-- the engine switch of the F02 history is in the known class: the state right before it satisfies
     the invariant, and `Known` holds of the switch -/
@@ -377,9 +440,9 @@ example : ∃ e', (stdEditor [3]).run toyEnv [.key keyJ, .key keyJ, .startSelect
   obtain ⟨e', he, hi⟩ := C01_partial_run toyEnv_ok [.key keyJ, .key keyJ, .startSelecting, .cancelSelecting, .commit]
     (stdEditor [3]) (stdEditor_inv [3])
     (allowed_two_keys (fun _ e2 _ _ =>
-      allowed_cons trivial (fun h => h) trivial (fun e3 _ =>
-        allowed_cons trivial (fun h => h) trivial (fun e4 _ =>
-          allowed_cons trivial (fun h => h) trivial (fun _ _ => trivial)))))
+      allowed_cons trivial (fun h => h) (fun e3 _ =>
+        allowed_cons trivial (fun h => h) (fun e4 _ =>
+          allowed_cons trivial (fun h => h) (fun _ _ => trivial)))))
   obtain ⟨e0, he0, hc0⟩ : ∃ e0, (stdEditor [3]).run toyEnv [.key keyJ, .key keyJ, .startSelecting, .cancelSelecting, .commit] = .ok e0 ∧
       e0.shared.commitBuf = [3] := ⟨_, rfl, rfl⟩
   have := ok_unique he0 he
@@ -400,6 +463,24 @@ example : ∃ e1 s e2 e3, (stdEditor [3]).run toyEnv [.key keyJ, .key keyJ, .key
     e1.run toyEnv [.key keyDown, .key key1] = .ok e2 ∧ e2.shared.com.inner.selections.length = 1 ∧
     e2.run toyEnv [.key keyEnter] = .ok e3 ∧ e3.shared.commitBuf = [3] :=
   ⟨_, _, _, _, rfl, rfl, rfl, rfl, rfl, rfl⟩
+
+/-- the four jumps on an open phrase list (two syllables, cursor at the beginning: `init` shrinks 0..2 to 0..1,
+    `prev_selection_point` searches up to the break point, `next_selection_point` / `jump_to_last` stop at the
+    one-syllable range) are plain operations: by `C01_plain_histories` they return and keep the invariant; the
+    list stays open on the syllable -/
+example : ∃ e' s p, (stdEditor [3]).run toyEnv [.key keyJ, .key keyJ, .key keyJ, .key keyJ, .key keyHome, .startSelecting,
+      .jump 3, .jump 2, .jump 1, .jump 0] = .ok e' ∧ EditorInv toyEnv (fun _ => True) e' ∧
+    e'.state = .selecting s ∧ s.sel = .phrase p ∧ (p.begin_, p.end_, p.orig) = (0, 1, 0) := by
+  obtain ⟨e', he, hi⟩ := C01_plain_histories toyEnv_ok _ (stdEditor_inv [3])
+    [.key keyJ, .key keyJ, .key keyJ, .key keyJ, .key keyHome, .startSelecting, .jump 3, .jump 2, .jump 1, .jump 0]
+    (by intro op hop; simp only [List.mem_cons, List.not_mem_nil, or_false] at hop
+        rcases hop with rfl | rfl | rfl | rfl | rfl | rfl | rfl | rfl | rfl | rfl <;> trivial)
+  obtain ⟨e0, s, p, he0, h1, h2, h3⟩ : ∃ e0 s p, (stdEditor [3]).run toyEnv [.key keyJ, .key keyJ, .key keyJ, .key keyJ,
+      .key keyHome, .startSelecting, .jump 3, .jump 2, .jump 1, .jump 0] = .ok e0 ∧ e0.state = .selecting s ∧
+      s.sel = .phrase p ∧ (p.begin_, p.end_, p.orig) = (0, 1, 0) := ⟨_, _, _, rfl, rfl, rfl, rfl⟩
+  have := ok_unique he0 he
+  subst this
+  exact ⟨_, s, p, he, hi, h1, h2, h3⟩
 
 /-- the candidate list of that history really opens (so `PhraseSelector::init` is exercised) -/
 example : ∃ e' s, (stdEditor [3]).run toyEnv [.key keyJ, .key keyJ, .startSelecting] = .ok e' ∧ e'.state = .selecting s :=
